@@ -88,6 +88,11 @@ func (c *Ctx) Arr(st *State, fam string, sort Sort) Term {
 		}
 	}
 	c.famSorts[fam] = sort
+	if strings.HasSuffix(fam, ".init$guard") {
+		// package initialisation has not run yet when its symbolic execution starts
+		st.arrays[fam] = False
+		return False
+	}
 	c.initFamily(st, fam, t)
 	return t
 }
@@ -121,6 +126,9 @@ func (c *Ctx) initFamily(st *State, fam string, t Term) {
 		st.Assume(Eq(Select(t, IntLit(0)), IntLit(0)))
 	case fam == famAlloc:
 		st.Assume(Not(Select(t, IntLit(0))))
+	case strings.HasSuffix(fam, ".init$guard"):
+		// package initialisation has not run yet when its symbolic execution starts
+		st.Assume(Not(t))
 	}
 }
 
